@@ -77,7 +77,7 @@ let parse_op (outs : pval array) (n : int) (s : string) : op =
   | [ "mut"; r; f ] -> OMutable (res r, nat_of_string f)
   | [ "newf"; r; f ] -> ONewField (res r, nat_of_string f)
   | [ "which"; r; j ] -> OWhichOneof (res r, nat_of_string j)
-  | [ "range"; r ] | [ "rstop"; r ] -> ORange (res r)
+  | [ "range"; r ] | [ "rstop"; r; _ ] -> ORange (res r)
   | [ "getunk"; r ] -> OGetUnknown (res r)
   | [ "setunk"; r; b ] -> OSetUnknown (res r, bytes_of_hex b)
   | [ "valid"; r ] | [ "lvalid"; r ] | [ "mvalid"; r ] -> OIsValid (res r)
@@ -95,7 +95,7 @@ let parse_op (outs : pval array) (n : int) (s : string) : op =
   | [ "mclear"; r; k ] -> OMClear (res r, scalar_of_tok k)
   | [ "mmut"; r; k ] -> OMMutable (res r, scalar_of_tok k)
   | [ "mnewv"; r ] -> OMNewValue (res r)
-  | [ "mrange"; r ] | [ "mrstop"; r ] -> OMRange (res r)
+  | [ "mrange"; r ] | [ "mrstop"; r; _ ] -> OMRange (res r)
   | _ -> failwith ("op " ^ s)
 
 let hist_steps = ref 0
@@ -113,12 +113,12 @@ let run_hist sch (h0 : heap) (outs0 : pval list) (root : nat option) (ops : stri
       let o = parse_op outs !n s in
       let h', r = step sch !h o in
       (* rstop / mrstop: a Range whose callback returns false at once makes exactly one callback when anything is populated *)
-      let stop = (let w = words s in match w with ("rstop" | "mrstop") :: _ -> true | _ -> false) in
-      let r = if not stop then r else
-          match r with
-          | PRange l -> PScalar (VInt (if l = [] then Z0 else Zpos XH))
-          | PMapRange l -> PScalar (VInt (if l = [] then Z0 else Zpos XH))
-          | other -> other in
+      let stop = (match words s with [ ("rstop" | "mrstop"); _; n ] -> Some (int_of_string n) | _ -> None) in
+      let capped k len = PScalar (VInt (z_of_dec (string_of_int (min k len)))) in
+      let r = match stop, r with
+          | Some k, PRange l -> capped k (List.length l)
+          | Some k, PMapRange l -> capped k (List.length l)
+          | _, other -> other in
       h := h';
       outs.(!n) <- r;
       (if !n = 0 then match r with PMsg (_, p) -> root := p | _ -> ());
